@@ -301,6 +301,10 @@ func (pc *ProviderCache) Refresh(ctx context.Context) error {
 
 		// Collect latest info on each provider.
 		for _, fetchedInfo := range fetchedInfos {
+			if fetchedInfo == nil {
+				// A source may hand on a null element of the list it got.
+				continue
+			}
 			pid := fetchedInfo.AddrInfo.ID
 			cinfo, ok := pc.write[pid]
 			if !ok {
